@@ -7,7 +7,9 @@ package main
 
 import (
 	"encoding/json"
+	"errors"
 	"fmt"
+	"io"
 	"os"
 	"sort"
 	"strconv"
@@ -364,4 +366,648 @@ func firstChunk(sc string) string {
 		b = append(b, c.bs...)
 	}
 	return hexs(b)
+}
+
+// ---------------------------------------------------------------- shared helpers
+
+type readOutcome struct {
+	kind  int    // -1 if no packet
+	snap  string // snapshot of the packet
+	enc   string
+	err   string // class, "nil" if none
+	panic bool
+	both  bool
+	none  bool
+	got   int
+	trace []int
+	p     mq.Packet
+	e     error
+}
+
+func (o readOutcome) verdict() string {
+	switch {
+	case o.panic:
+		return "PANIC"
+	case o.both:
+		return "BOTH"
+	case o.none:
+		return "NEITHER"
+	case o.kind >= 0:
+		return "P" + strconv.Itoa(o.kind) + " " + o.snap + " " + o.enc
+	}
+	return "E" + o.err
+}
+
+func readOnce(r *scriptReader) (o readOutcome) {
+	o.kind = -1
+	defer func() {
+		if e := recover(); e != nil {
+			o.panic = true
+		}
+		o.got = r.got
+		o.trace = r.trace
+	}()
+	p, err := mq.ReadPacket(r)
+	o.p, o.e = p, err
+	switch {
+	case !isNilPacket(p) && err == nil:
+		o.kind = kindOf(p)
+		o.snap = snapshot(p)
+		o.enc = encS(p)
+		o.err = "nil"
+	case isNilPacket(p) && err != nil:
+		o.err = errClass(err)
+	case !isNilPacket(p) && err != nil:
+		o.both = true
+	default:
+		o.none = true
+	}
+	return
+}
+
+func oneChunk(bs []byte) *scriptReader {
+	return &scriptReader{chunks: []chunk{{bs: append([]byte{}, bs...)}}}
+}
+
+// hostile inputs for the decoders: prefixes, length-field mutations, nibbles, random
+func (g *G) hostileFrames(n int, emit func(f []byte)) {
+	for i := 0; i < n; i++ {
+		f := g.validFrame()
+		if len(f) > 4000 {
+			f = f[:4000]
+		}
+		switch g.pick(6) {
+		case 0:
+			emit(f)
+		case 1: // every prefix of a (short) frame, re-framed
+			_, hl := splitFrame(f)
+			if hl > 0 && len(f)-hl < 80 {
+				for k := 0; k <= len(f)-hl; k++ {
+					body := f[hl : hl+k]
+					emit(append(append([]byte{f[0]}, vbEnc(uint64(len(body)))...), body...))
+				}
+			} else {
+				emit(g.mutate(f))
+			}
+		case 2:
+			emit(g.mutate(f))
+		case 3:
+			emit(g.mutate(g.mutate(f)))
+		case 4: // every type nibble over this body
+			for nb := 0; nb < 16; nb++ {
+				ff := append([]byte{}, f...)
+				ff[0] = byte(nb<<4) | ff[0]&0x0f
+				emit(ff)
+			}
+		case 5:
+			b := g.bytesN(2 + g.pick(20))
+			b[1] = byte(len(b) - 2)
+			emit(b)
+		}
+	}
+}
+
+func countLists(p mq.Packet) int {
+	n := 0
+	switch p := p.(type) {
+	case *mq.Connect:
+		n = len(p.UserProperties)
+		if w := p.Will(); w != nil {
+			n += len(w.UserProperties) + len(w.SubscriptionIDs())
+		}
+	case *mq.ConnAck:
+		n = len(p.UserProperties)
+	case *mq.Publish:
+		n = len(p.UserProperties) + len(p.SubscriptionIDs())
+	case *mq.PubAck:
+		n = len(p.UserProperties)
+	case *mq.PubRec:
+		n = len(p.UserProperties)
+	case *mq.PubRel:
+		n = len(p.UserProperties)
+	case *mq.PubComp:
+		n = len(p.UserProperties)
+	case *mq.Subscribe:
+		n = len(p.UserProperties) + len(p.Filters())
+	case *mq.SubAck:
+		n = len(p.UserProperties) + len(p.ReasonCodes())
+	case *mq.Unsubscribe:
+		n = len(p.UserProperties) + len(p.Filters())
+	case *mq.UnsubAck:
+		n = len(p.UserProperties) + len(p.ReasonCodes())
+	case *mq.Disconnect:
+		n = len(p.UserProperties)
+	case *mq.Auth:
+		n = len(p.UserProperties)
+	}
+	return n
+}
+
+// ---------------------------------------------------------------- C04 / C05
+
+func init() {
+	oracles["C04"] = func(r *report, g *G, n int, single string) { oracleDecode(r, g, n, single, false) }
+	oracles["C05"] = func(r *report, g *G, n int, single string) { oracleDecode(r, g, n, single, true) }
+}
+
+func caseBytes(single string) ([]byte, bool) {
+	f := splitWS(single)
+	switch {
+	case len(f) == 3 && f[0] == "R":
+		var b []byte
+		for _, c := range parseScript(f[2]).chunks {
+			b = append(b, c.bs...)
+		}
+		return b, true
+	case len(f) == 4 && f[0] == "U":
+		return unhex(f[3]), true
+	}
+	return nil, false
+}
+
+func oracleDecode(r *report, g *G, n int, single string, bounded bool) {
+	check := func(f []byte) {
+		c := "R 1 " + hexs(f)
+		work := func() string {
+			o := readOnce(oneChunk(f))
+			if o.panic || o.both || o.none {
+				return o.verdict()
+			}
+			if bounded && o.kind >= 0 {
+				if l := countLists(o.p); l > len(f) {
+					return fmt.Sprintf("LISTS %d > %d bytes", l, len(f))
+				}
+			}
+			return ""
+		}
+		res, ok := runWithWatchdog(work)
+		if !ok {
+			r.fail("decode-timeout", c, "ReadPacket did not return within the watchdog limit")
+			r.finish()
+			os.Exit(1) // the stuck goroutine cannot be stopped
+		}
+		if res != "" {
+			key := "decode-panic"
+			if bounded {
+				key = "decode-unbounded"
+			}
+			if !bounded || res[0] == 'L' {
+				r.fail(key, c, res)
+			}
+		}
+		// UnmarshalBinary of every packet type on the body
+		_, hl := splitFrame(f)
+		if hl > 0 && hl <= len(f) {
+			body := f[hl:]
+			ks := []int{int(f[0] >> 4), g.pick(16)}
+			for _, k := range ks {
+				k := k
+				cu := fmt.Sprintf("U %d z %s", k, hexs(body))
+				res, ok := runWithWatchdog(func() (s string) {
+					defer func() {
+						if e := recover(); e != nil {
+							s = "PANIC"
+						}
+					}()
+					p := zeroPacket(k)
+					err := p.UnmarshalBinary(append([]byte{}, body...))
+					if bounded && err == nil {
+						if l := countLists(p); l > len(body) {
+							return fmt.Sprintf("LISTS %d > %d bytes", l, len(body))
+						}
+					}
+					return ""
+				})
+				if !ok {
+					r.fail("decode-timeout", cu, "UnmarshalBinary did not return")
+					r.finish()
+					os.Exit(1)
+				}
+				if res != "" && (!bounded || res[0] == 'L') {
+					key := "decode-panic"
+					if bounded {
+						key = "decode-unbounded"
+					}
+					r.fail(key, cu, res)
+				}
+			}
+		}
+		cls := "short"
+		if len(f) > 64 {
+			cls = "long"
+		}
+		r.eval(cls, len(f) > 2, hexs(f))
+	}
+	if single != "" {
+		if b, ok := caseBytes(single); ok {
+			check(b)
+		}
+		return
+	}
+	for _, l := range corpusLines("read") {
+		if b, ok := caseBytes(l); ok {
+			check(b)
+		}
+	}
+	// all frames with a body of <= 1 byte for every first byte
+	for b := 0; b < 256; b++ {
+		check([]byte{byte(b), 0})
+		check([]byte{byte(b), 1, byte(g.pick(256))})
+		check([]byte{byte(b), 2, 0, byte(g.pick(256))})
+	}
+	if bounded {
+		oracleAlloc(r, g)
+	}
+	g.hostileFrames(n, check)
+	r.sample(map[string]string{"case": "R 1 400100", "expect": "error, no panic"})
+	r.sample(map[string]string{"case": "R 1 8206000100000561", "expect": "returns with an error"})
+}
+
+// allocation proportional to the declared frame length
+func oracleAlloc(r *report, g *G) {
+	for i := 0; i < 200; i++ {
+		f := g.mutate(g.validFrame())
+		var m0, m1 runtimeMem
+		readMem(&m0)
+		readOnce(oneChunk(f))
+		readMem(&m1)
+		rl, _ := splitFrame(f)
+		limit := uint64(64*(rl+len(f)) + 1<<16)
+		if d := m1.total - m0.total; d > limit {
+			r.fail("decode-alloc", "R 1 "+hexs(f), fmt.Sprintf("allocated %d bytes for a frame of %d (declared %d)", d, len(f), rl))
+		}
+		r.eval("alloc", true, "alloc"+hexs(f))
+	}
+}
+
+func corpusLines(suite string) []string {
+	b, err := os.ReadFile("corpus/" + suite + ".txt")
+	if err != nil {
+		return nil
+	}
+	var out []string
+	cur := ""
+	for _, c := range string(b) {
+		if c == '\n' {
+			if cur != "" {
+				out = append(out, cur)
+			}
+			cur = ""
+		} else {
+			cur += string(c)
+		}
+	}
+	if cur != "" {
+		out = append(out, cur)
+	}
+	return out
+}
+
+// ---------------------------------------------------------------- C06
+
+func init() {
+	oracles["C06"] = oracleC06
+	oracles["C07"] = oracleC07
+	oracles["C08"] = oracleC08
+	oracles["C16"] = oracleC16
+}
+
+// frameFor: a frame for the sequence tests: valid, content-malformed or empty.
+func (g *G) seqFrame() []byte {
+	var f []byte
+	switch g.pick(6) {
+	case 0:
+		f = []byte{byte(g.pick(16)<<4 | g.pick(16)), 0}
+	case 1:
+		f = g.mutate(g.validFrame())
+		rl, hl := splitFrame(f)
+		if hl == 0 || hl+rl != len(f) { // keep it a well framed (content may be bad)
+			f = g.validFrame()
+			body := g.bytesN(1 + g.pick(10))
+			f = append(append([]byte{f[0]}, vbEnc(uint64(len(body)))...), body...)
+		}
+	default:
+		f = g.validFrame()
+	}
+	if len(f) > 5000 {
+		f = []byte{0xd0, 0}
+	}
+	return f
+}
+
+func oracleC06(r *report, g *G, n int, single string) {
+	if single != "" {
+		f := splitWS(single)
+		if len(f) == 3 && f[0] == "R" {
+			// judge: consumed must equal the total size of the frames the header declares
+			rd := parseScript(f[2])
+			var all []byte
+			for _, c := range rd.chunks {
+				all = append(all, c.bs...)
+			}
+			checkSequenceBytes(r, g, all, single)
+		}
+		return
+	}
+	for i := 0; i < n; i++ {
+		m := 1 + g.pick(6)
+		var all []byte
+		for j := 0; j < m; j++ {
+			all = append(all, g.seqFrame()...)
+		}
+		all = append(all, g.bytesN(g.pick(5))...)
+		checkSequenceBytes(r, g, all, "")
+	}
+	r.sample(map[string]string{"stream": "9002000a c000 + trailing", "expect": "SUBACK then PINGREQ, 4 and 2 bytes consumed"})
+}
+
+// checkSequenceBytes splits the byte string into declared frames and checks that
+// successive ReadPacket calls consume exactly each frame and give the result the
+// frame gives on its own.
+func checkSequenceBytes(r *report, g *G, all []byte, label string) {
+	sc := g.fragment(all, g.pick(2))
+	if label == "" {
+		label = "R 8 " + sc
+	} else {
+		sc = splitWS(label)[2]
+	}
+	rd := parseScript(sc)
+	pos := 0
+	nframes := 0
+	for pos < len(all) {
+		rl, hl := splitFrame(all[pos:])
+		if hl == 0 || pos+hl+rl > len(all) {
+			break // trailing bytes: not a complete frame
+		}
+		frame := all[pos : pos+hl+rl]
+		before := rd.got
+		o := readOnce(rd)
+		alone := readOnce(oneChunk(frame))
+		if o.verdict() != alone.verdict() {
+			r.fail("sequence-result", label, fmt.Sprintf("frame %d (%s): in stream %s, alone %s", nframes, hexs(frame), o.verdict(), alone.verdict()))
+			return
+		}
+		if rd.got-before != len(frame) {
+			r.fail("sequence-consumed", label, fmt.Sprintf("frame %d (%s): consumed %d want %d", nframes, hexs(frame), rd.got-before, len(frame)))
+			return
+		}
+		pos += len(frame)
+		nframes++
+		if o.kind < 0 && o.err != "nil" && (o.err == "eof" || o.err == "ueof") {
+			// a content error never is an EOF
+			r.fail("sequence-result", label, "content error reported as EOF")
+		}
+	}
+	if pos == len(all) {
+		o := readOnce(rd)
+		if o.err != "eof" {
+			r.fail("sequence-eof", label, "after the last frame: "+o.verdict())
+		}
+	}
+	r.eval(fmt.Sprintf("frames%d", nframes), nframes >= 2, sc)
+}
+
+// ---------------------------------------------------------------- C07
+
+// compositions enumerates every split of n into ordered positive parts.
+func compositions(n int, f func(parts []int)) {
+	var rec func(rem int, acc []int)
+	rec = func(rem int, acc []int) {
+		if rem == 0 {
+			f(acc)
+			return
+		}
+		for k := 1; k <= rem; k++ {
+			rec(rem-k, append(acc, k))
+		}
+	}
+	rec(n, nil)
+}
+
+func scriptOf(frame []byte, parts []int, zeroReads bool, eofStyle int) *scriptReader {
+	rd := &scriptReader{}
+	i := 0
+	for _, k := range parts {
+		if zeroReads {
+			rd.chunks = append(rd.chunks, chunk{})
+		}
+		rd.chunks = append(rd.chunks, chunk{bs: append([]byte{}, frame[i:i+k]...)})
+		i += k
+	}
+	if eofStyle == 1 && len(rd.chunks) > 0 {
+		rd.chunks[len(rd.chunks)-1].err = io.EOF
+	}
+	return rd
+}
+
+func oracleC07(r *report, g *G, n int, single string) {
+	checkFrame := func(f []byte, exhaustive bool) {
+		want := readOnce(oneChunk(f)).verdict()
+		try := func(rd *scriptReader, desc string) {
+			got := readOnce(rd)
+			if got.verdict() != want {
+				r.fail("fragmentation", "R 1 "+desc, fmt.Sprintf("frame %s: fragmented %s, contiguous %s", hexs(f), got.verdict(), want))
+			}
+		}
+		if exhaustive {
+			cnt := 0
+			compositions(len(f), func(parts []int) {
+				for z := 0; z < 2; z++ {
+					for e := 0; e < 2; e++ {
+						try(scriptOf(f, parts, z == 1, e), fmt.Sprintf("%v zero=%d eof=%d", parts, z, e))
+						cnt++
+					}
+				}
+			})
+			r.evalN("exhaustive-compositions", cnt, cnt-4)
+		} else {
+			for j := 0; j < 8; j++ {
+				sc := g.fragment(f, g.pick(2))
+				try(parseScript(sc), sc)
+				r.eval("random-schedule", true, sc)
+			}
+			// one byte at a time
+			parts := make([]int, len(f))
+			for i := range parts {
+				parts[i] = 1
+			}
+			try(scriptOf(f, parts, true, 1), "bytewise")
+		}
+	}
+	if single != "" {
+		if b, ok := caseBytes(single); ok {
+			_, hl := splitFrame(b)
+			if hl > 0 {
+				checkFrame(b, len(b) <= 10)
+			}
+		}
+		return
+	}
+	for _, l := range corpusLines("read") {
+		if b, ok := caseBytes(l); ok {
+			rl, hl := splitFrame(b)
+			if hl > 0 && hl+rl == len(b) {
+				checkFrame(b, len(b) <= 11)
+			}
+		}
+	}
+	for i := 0; i < n; i++ {
+		f := g.seqFrame()
+		checkFrame(f, len(f) <= 10)
+	}
+	r.sample(map[string]string{"frame": "40020007", "schedules": "all 8 compositions x zero-length reads x EOF styles"})
+}
+
+// ---------------------------------------------------------------- C08
+
+func oracleC08(r *report, g *G, n int, single string) {
+	checkFrame := func(f []byte) {
+		cuts := []int{}
+		if len(f) <= 40 {
+			for k := 0; k < len(f); k++ {
+				cuts = append(cuts, k)
+			}
+		} else {
+			cuts = []int{0, 1, 2, len(f) / 2, len(f) - 1, g.pick(len(f)), g.pick(len(f))}
+		}
+		for _, k := range cuts {
+			for style := 0; style < 2; style++ { // fault with the last bytes / in a later call
+				for fault := 0; fault < 2; fault++ { // EOF / transport error
+					var ferr error = io.EOF
+					if fault == 1 {
+						ferr = injectedErr(1 + g.pick(9))
+					}
+					rd := parseScript(g.fragment(f[:k], 0))
+					// a failed transport keeps failing: the error is reported with the
+					// last bytes (style 0) or in the next call (style 1), and again on
+					// every later call
+					if style == 0 && len(rd.chunks) > 0 {
+						rd.chunks[len(rd.chunks)-1].err = ferr
+					}
+					rd.chunks = append(rd.chunks, chunk{err: ferr}, chunk{err: ferr})
+					desc := fmt.Sprintf("frame=%s cut=%d style=%d fault=%s", hexs(f), k, style, errClass(ferr))
+					o := readOnce(rd)
+					switch {
+					case o.panic || o.both || o.none:
+						r.fail("fault-"+o.verdict(), desc, o.verdict())
+					case o.kind >= 0:
+						r.fail("fault-papered-over", desc, "packet returned from a truncated frame: "+o.verdict())
+					case fault == 1 && !errors.Is(o.e, ferr):
+						r.fail("fault-error-lost", desc, "errors.Is(err, E) is false: "+o.e.Error())
+					case fault == 0 && k == 0 && !errors.Is(o.e, io.EOF):
+						r.fail("fault-eof-lost", desc, "errors.Is(err, io.EOF) is false: "+o.e.Error())
+					}
+					r.eval(fmt.Sprintf("style%d-fault%d", style, fault), k > 0, desc)
+				}
+			}
+		}
+		// a packet only if every byte was delivered
+		o := readOnce(oneChunk(f))
+		if o.kind >= 0 && o.got != len(f) {
+			r.fail("fault-incomplete", "R 1 "+hexs(f), "packet returned after reading fewer bytes than the frame")
+		}
+	}
+	if single != "" {
+		if b, ok := caseBytes(single); ok {
+			rl, hl := splitFrame(b)
+			if hl > 0 && hl+rl <= len(b) {
+				checkFrame(b[:hl+rl])
+			}
+		}
+		return
+	}
+	for i := 0; i < n; i++ {
+		checkFrame(g.seqFrame())
+	}
+	r.sample(map[string]string{"frame": "3005000174aabb", "cut": "every offset 0..6", "faults": "EOF and injected error, with the last bytes or in the next call"})
+}
+
+// ---------------------------------------------------------------- C16
+
+func oracleC16(r *report, g *G, n int, single string) {
+	checkFirst := func(b byte, body []byte) {
+		f := append(append([]byte{b}, vbEnc(uint64(len(body)))...), body...)
+		c := "R 1 " + hexs(f)
+		o := readOnce(oneChunk(f))
+		if o.kind < 0 {
+			r.eval("rejected", false, c)
+			return
+		}
+		if o.kind != int(b>>4) {
+			r.fail("dispatch-type", c, fmt.Sprintf("type %d for first byte %02x", o.kind, b))
+		}
+		if b>>4 == 0 {
+			if !bytesEq(o.p.(*mq.Undefined).Data(), body) {
+				r.fail("dispatch-undefined-data", c, "Undefined does not carry the frame's bytes")
+			}
+		} else {
+			if fx, ok := mq.VerifFixed(o.p); !ok || fx != b {
+				r.fail("dispatch-fixed", c, fmt.Sprintf("fixed %02x", fx))
+			}
+			out := frameOf(o.p)
+			if len(out) == 0 || out[0] != b {
+				r.fail("dispatch-rewrite", c, "first byte written "+hexs(out))
+			}
+		}
+		if b>>4 == 3 {
+			p := o.p.(*mq.Publish)
+			wantQ := uint8((b >> 1) & 3)
+			if p.Duplicate() != (b&8 != 0) || p.Retain() != (b&1 != 0) || p.QoS() != wantQ {
+				r.fail("dispatch-publish-flags", c, fmt.Sprintf("dup=%v retain=%v qos=%d", p.Duplicate(), p.Retain(), p.QoS()))
+			}
+		}
+		r.eval(fmt.Sprintf("type%d", b>>4), b&15 != 0, c)
+	}
+	if single != "" {
+		if b, ok := caseBytes(single); ok && len(b) > 0 {
+			_, hl := splitFrame(b)
+			if hl > 0 {
+				checkFirst(b[0], b[hl:])
+			}
+		}
+		return
+	}
+	// bodies valid for each type, including empty ones
+	bodies := map[int][][]byte{}
+	for k := 0; k < 16; k++ {
+		bodies[k] = append(bodies[k], nil)
+	}
+	for i := 0; i < 400+n; i++ {
+		f := g.validFrame()
+		_, hl := splitFrame(f)
+		k := int(f[0] >> 4)
+		if len(bodies[k]) < 12 && len(f) < 3000 {
+			bodies[k] = append(bodies[k], f[hl:])
+		}
+	}
+	bodies[0] = append(bodies[0], []byte{1, 2, 3}, g.bytesN(40))
+	for b := 0; b < 256; b++ {
+		for _, body := range bodies[b>>4] {
+			if b>>4 == 3 && len(body) > 0 {
+				// a PUBLISH body is valid for a given QoS only: rebuild it
+				p := mq.NewPublish()
+				p.SetTopicName("t/" + string(rune('a'+g.pick(26))))
+				p.SetPacketID(uint16(1 + g.pick(65535)))
+				p.SetQoS(uint8((b >> 1) & 3))
+				p.SetPayload(g.bytesN(g.pick(5)))
+				f := frameOf(p)
+				_, hl := splitFrame(f)
+				body = f[hl:]
+			}
+			checkFirst(byte(b), body)
+		}
+	}
+	r.sample(map[string]string{"first byte": "0x3b", "expect": "PUBLISH dup=1 qos=1 retain=1, rewritten first byte 0x3b"})
+}
+
+func bytesEq(a, b []byte) bool {
+	if len(a) != len(b) {
+		return false
+	}
+	for i := range a {
+		if a[i] != b[i] {
+			return false
+		}
+	}
+	return true
 }
